@@ -57,11 +57,61 @@ func (p *Program) Reach(from []Loc, stop func(ssa.Instruction) bool) map[ssa.Ins
 		if ended {
 			continue
 		}
-		for _, s := range l.B.Succs {
+		for _, s := range p.feasibleSuccs(l.B) {
 			work = append(work, Loc{s, 0})
 		}
 	}
 	return visited
+}
+
+// feasibleSuccs: the successors of b, without the branch edge that a constant
+// condition rules out (a nil test of a value that is never nil, such as a
+// freshly made error; a constant boolean).
+func (p *Program) feasibleSuccs(b *ssa.BasicBlock) []*ssa.BasicBlock {
+	if len(b.Instrs) == 0 || len(b.Succs) != 2 {
+		return b.Succs
+	}
+	ifi, ok := b.Instrs[len(b.Instrs)-1].(*ssa.If)
+	if !ok {
+		return b.Succs
+	}
+	v := ifi.Cond
+	neg := false
+	for {
+		if u, ok := v.(*ssa.UnOp); ok && u.Op == token.NOT {
+			v, neg = u.X, !neg
+			continue
+		}
+		break
+	}
+	val, known := false, false
+	switch x := v.(type) {
+	case *ssa.Const:
+		if x.Value != nil && x.Value.Kind() == constant.Bool {
+			val, known = constant.BoolVal(x.Value), true
+		}
+	case *ssa.BinOp:
+		if x.Op == token.EQL || x.Op == token.NEQ {
+			a, c := x.X, x.Y
+			if isNilConst(a) {
+				a, c = c, a
+			}
+			if isNilConst(c) {
+				if isNilConst(a) {
+					val, known = x.Op == token.EQL, true
+				} else if p.definitelyNonNil(a, 0) {
+					val, known = x.Op == token.NEQ, true
+				}
+			}
+		}
+	}
+	if !known {
+		return b.Succs
+	}
+	if val != neg {
+		return b.Succs[:1]
+	}
+	return b.Succs[1:]
 }
 
 func (p *Program) callNoReturnCached(in ssa.Instruction) bool {
